@@ -137,6 +137,39 @@ Theorem gates_as_modelled :
   G.nil_fees_not_verified = ["SubmitLogicCall"; "UploadUserSmartContract"]%string.
 Proof. repeat split; reflexivity. Qed.
 
+(* ---------- third round: the guards of each action type's attester, from the source ---------- *)
+
+Definition has_guard (x : string) (l : list string) : bool := existsb (String.eqb x) l.
+Definition guard_set_of (l : list string) : guard_set :=
+  {| g_processed := has_guard "processed" l; g_compass := has_guard "compass" l; g_verify := has_guard "verify" l |}.
+Definition code_guards (k : kind) : guard_set :=
+  guard_set_of match k with
+               | KSubmitLogicCall => G.guards_submit_logic_call
+               | KUpdateValset => G.guards_update_valset
+               | KUploadCompass => G.guards_upload_smart_contract
+               | KUploadUser => G.guards_upload_user_smart_contract
+               | KHandover => G.guards_compass_handover
+               end.
+
+(** every attester runs the processed-tx check, the compass lookup and VerifyAgainstTX: the
+    hypothesis [guards_full] of Evm/AttestProofs.v, discharged from the extracted lists *)
+Lemma code_guards_full : forall k, code_guards k = full_guards.
+Proof. destruct k; reflexivity. Qed.
+
+(** ... through the shared attestTransactionIntegrity, in this order, before anything else *)
+Theorem every_attester_runs_all_guards :
+  G.integrity_guards = ["processed"; "compass"; "verify"]%string /\
+  G.guards_submit_logic_call = G.integrity_guards /\
+  G.guards_update_valset = G.integrity_guards /\
+  G.guards_upload_smart_contract = G.integrity_guards /\
+  G.guards_upload_user_smart_contract = G.integrity_guards /\
+  G.guards_compass_handover = G.integrity_guards /\
+  (* the record a user contract upload's follow-up writes to: Evm/UserDeployments.v *)
+  G.user_deployment_lookup = ["ChainReferenceId~targetChain"; "CreatedAtBlockHeight~blockHeight"]%string /\
+  G.user_lookup_by_created = true /\
+  G.user_deployment_created = "appended, IN_FLIGHT, created = updated = current height"%string.
+Proof. repeat split; reflexivity. Qed.
+
 Lemma method_tag_inj : forall k k', method_tag k = method_tag k' -> k = k'.
 Proof. destruct k, k'; simpl; intros Hk; try reflexivity; discriminate. Qed.
 
